@@ -2,8 +2,14 @@ package main
 
 // C14, second half: the concurrent filedef.Listener.
 //
-//	listener g<GOMAXPROCS> s<seed> n<N|d> <tok>...
-//	   tok = m<msg descriptor> (OnMesg) | F (File) | C (Close) | R<N> / Rd (Reset with / without WithChannelBuffer)
+//	listener g<GOMAXPROCS> s<seed> n<conf> <tok>...
+//	   tok  = m<msg descriptor> (OnMesg) | F (File) | C (Close) | R<conf> (Reset)
+//	   conf = <N|d> {"+" opt}     N = WithChannelBuffer(N), d = no WithChannelBuffer (default 128)
+//	   opt  = "P" entries   m := filedef.PredefinedFileSet(); entries applied to m; WithFileSets(m)
+//	        | "W" entries   the same starting from an empty map
+//	        | "F" entry     WithFileFunc(k, fn)
+//	   entries = [entry {"," entry}], entry = <k> "=" (<t> | "-")   key k (0..255) ↦ the constructor of the predefined file type t
+//	             (e.g. 77=4: a file_id of type 77 makes a filedef.Activity), "-" = a nil constructor (type not listened to)
 //	→ one "[<go type> n=<k> <omsg>...]" or "[nil]" per F, then "end"; or, as soon as the calling goroutine and
 //	  every listener worker are blocked on channel operations, the results so far followed by "deadlock".
 //
@@ -22,6 +28,7 @@ import (
 	"time"
 
 	"github.com/muktihari/fit/profile/filedef"
+	"github.com/muktihari/fit/profile/typedef"
 	"github.com/muktihari/fit/profile/untyped/mesgnum"
 )
 
@@ -93,10 +100,113 @@ type lstep struct {
 	kind byte // 'm', 'F', 'C', 'R'
 	d    mdesc
 	n    int // for R: buffer size, -1 = default
+	opts []lopt
+}
+
+// lopt: one WithFileSets / WithFileFunc option of a listener configuration
+type lopt struct {
+	kind    byte // 'P', 'W', 'F'
+	entries []lentry
+}
+
+type lentry struct {
+	k int
+	t int // predefined file type whose constructor is entered, -1 = nil constructor
+}
+
+func parseLEntry(e string) (lentry, bool) {
+	p := strings.Split(e, "=")
+	if len(p) != 2 {
+		return lentry{}, false
+	}
+	k, err := strconv.Atoi(p[0])
+	if err != nil || k < 0 || k > 255 || strconv.Itoa(k) != p[0] {
+		return lentry{}, false
+	}
+	if p[1] == "-" {
+		return lentry{k: k, t: -1}, true
+	}
+	t, err := strconv.Atoi(p[1])
+	if err != nil || strconv.Itoa(t) != p[1] || fileTypeByByte(t) == nil {
+		return lentry{}, false
+	}
+	return lentry{k: k, t: t}, true
+}
+
+// parseLConf: "<N|d>{+opt}" → buffer size (-1 = default) and the file-set options
+func parseLConf(c string) (int, []lopt, bool) {
+	parts := strings.Split(c, "+")
+	n := -1
+	if parts[0] != "d" {
+		var err error
+		if n, err = strconv.Atoi(parts[0]); err != nil || n < 0 || n > 1<<16 || strconv.Itoa(n) != parts[0] {
+			return 0, nil, false
+		}
+	}
+	var opts []lopt
+	for _, o := range parts[1:] {
+		if o == "" {
+			return 0, nil, false
+		}
+		lo := lopt{kind: o[0]}
+		switch o[0] {
+		case 'P', 'W':
+			if len(o) > 1 {
+				for _, e := range strings.Split(o[1:], ",") {
+					le, ok := parseLEntry(e)
+					if !ok {
+						return 0, nil, false
+					}
+					lo.entries = append(lo.entries, le)
+				}
+			}
+		case 'F':
+			le, ok := parseLEntry(o[1:])
+			if !ok {
+				return 0, nil, false
+			}
+			lo.entries = []lentry{le}
+		default:
+			return 0, nil, false
+		}
+		opts = append(opts, lo)
+	}
+	return n, opts, true
+}
+
+func lctor(t int) func() filedef.File {
+	if t < 0 {
+		return nil
+	}
+	return fileTypeByByte(t).fn
+}
+
+// listenerOptions: the filedef.Option values of a configuration, as a user would write them
+func listenerOptions(n int, opts []lopt) []filedef.Option {
+	var res []filedef.Option
+	if n >= 0 {
+		res = append(res, filedef.WithChannelBuffer(uint(n)))
+	}
+	for _, o := range opts {
+		switch o.kind {
+		case 'P', 'W':
+			m := filedef.FileSets{}
+			if o.kind == 'P' {
+				m = filedef.PredefinedFileSet() // documented use: take the predefined set, edit it, register it
+			}
+			for _, e := range o.entries {
+				m[typedef.File(e.k)] = lctor(e.t)
+			}
+			res = append(res, filedef.WithFileSets(m))
+		case 'F':
+			res = append(res, filedef.WithFileFunc(typedef.File(o.entries[0].k), lctor(o.entries[0].t)))
+		}
+	}
+	return res
 }
 
 //go:noinline
-func listenerScript(n int, steps []lstep, mu *sync.Mutex, out *[]string, progress *atomic.Int64, gid *atomic.Int64, donec chan struct{}) {
+func listenerScript(n int, nopts []lopt, steps []lstep, mu *sync.Mutex, out *[]string, progress *atomic.Int64, gid *atomic.Int64, donec chan struct{}) {
 	{
 		var b [64]byte
 		f := strings.Fields(string(b[:runtime.Stack(b[:], false)]))
@@ -108,10 +218,8 @@ func listenerScript(n int, steps []lstep, mu *sync.Mutex, out *[]string, progres
 	var l *filedef.Listener
 	if n == -2 {
 		l = new(filedef.Listener) // detector self-test only (listenerselftest): never built by NewListener, its pool channel is nil
-	} else if n < 0 {
-		l = filedef.NewListener()
 	} else {
-		l = filedef.NewListener(filedef.WithChannelBuffer(uint(n)))
+		l = filedef.NewListener(listenerOptions(n, nopts)...)
 	}
 	for _, s := range steps {
 		switch s.kind {
@@ -125,11 +233,7 @@ func listenerScript(n int, steps []lstep, mu *sync.Mutex, out *[]string, progres
 		case 'C':
 			l.Close()
 		case 'R':
-			if s.n < 0 {
-				l.Reset()
-			} else {
-				l.Reset(filedef.WithChannelBuffer(uint(s.n)))
-			}
+			l.Reset(listenerOptions(s.n, s.opts)...)
 		}
 		progress.Add(1)
 	}
@@ -165,10 +269,12 @@ func execListenerImpl(args []string, selftest bool) string {
 		return "bad-op"
 	}
 	n := -1
+	var nopts []lopt
 	if selftest && args[2] == "nz" {
 		n = -2
-	} else if args[2] != "nd" {
-		if n, err = strconv.Atoi(args[2][1:]); err != nil || n < 0 || n > 1<<16 {
+	} else {
+		var ok bool
+		if n, nopts, ok = parseLConf(args[2][1:]); !ok {
 			return "bad-op"
 		}
 	}
@@ -177,14 +283,12 @@ func execListenerImpl(args []string, selftest bool) string {
 		switch {
 		case a == "F" || a == "C":
 			steps = append(steps, lstep{kind: a[0]})
-		case a == "Rd":
-			steps = append(steps, lstep{kind: 'R', n: -1})
 		case strings.HasPrefix(a, "R"):
-			k, err := strconv.Atoi(a[1:])
-			if err != nil || k < 0 || k > 1<<16 {
+			k, ro, ok := parseLConf(a[1:])
+			if !ok {
 				return "bad-op"
 			}
-			steps = append(steps, lstep{kind: 'R', n: k})
+			steps = append(steps, lstep{kind: 'R', n: k, opts: ro})
 		case strings.HasPrefix(a, "m"):
 			d, ok := parseMdesc(a[1:])
 			if !ok || d.tag == 0 {
@@ -201,7 +305,7 @@ func execListenerImpl(args []string, selftest bool) string {
 	var mu sync.Mutex
 	var progress, gid atomic.Int64
 	donec := make(chan struct{})
-	go listenerScript(n, steps, &mu, &out, &progress, &gid, donec)
+	go listenerScript(n, nopts, steps, &mu, &out, &progress, &gid, donec)
 	deadline := time.Now().Add(60 * time.Second)
 	wait := 200 * time.Microsecond
 	for {
@@ -261,12 +365,103 @@ func genListener(emit func(string), tier string, rng *Rng) {
 		}
 		return pre + strconv.Itoa(b)
 	}
+	// file sets: key → file type whose constructor is registered (nil = none); defaults = the predefined types
+	defaultSets := func() [256]*ftInfo {
+		var a [256]*ftInfo
+		for x := range infos {
+			a[infos[x].ft.b] = &infos[x]
+		}
+		return a
+	}
+	infoOf := func(t int) *ftInfo {
+		for x := range infos {
+			if int(infos[x].ft.b) == t {
+				return &infos[x]
+			}
+		}
+		return nil
+	}
+	customKeys := []int{77, 200, 255, 0, 8, 33}
+	// genConf: a configuration token body "<N|d>{+opt}" and the file sets it results in; custom = the entries given
+	genConf := func(b int, withOpts bool) (string, [256]*ftInfo, []lentry) {
+		tok := bufTok(b, "")
+		sets := defaultSets()
+		var custom []lentry
+		if !withOpts {
+			return tok, sets, nil
+		}
+		entry := func(removeOK bool) lentry {
+			var k int
+			switch rng.Intn(3) {
+			case 0:
+				k = int(infos[rng.Intn(len(infos))].ft.b) // a predefined key: replaced
+			default:
+				k = customKeys[rng.Intn(len(customKeys))]
+			}
+			t := int(infos[rng.Intn(len(infos))].ft.b)
+			if removeOK && rng.Intn(4) == 0 {
+				t = -1
+				k = int(infos[rng.Intn(len(infos))].ft.b)
+			}
+			return lentry{k: k, t: t}
+		}
+		show := func(es []lentry) string {
+			var p []string
+			for _, e := range es {
+				if e.t < 0 {
+					p = append(p, fmt.Sprintf("%d=-", e.k))
+				} else {
+					p = append(p, fmt.Sprintf("%d=%d", e.k, e.t))
+				}
+			}
+			return strings.Join(p, ",")
+		}
+		apply := func(es []lentry) {
+			for _, e := range es {
+				sets[e.k] = infoOf(e.t)
+			}
+			custom = append(custom, es...)
+		}
+		nopt := 1 + rng.Intn(2)
+		for j := 0; j < nopt; j++ {
+			switch rng.Intn(4) {
+			case 0, 1: // the documented route: edit a copy of PredefinedFileSet()
+				var es []lentry
+				for n := rng.Intn(3); n >= 0; n-- {
+					es = append(es, entry(true))
+				}
+				sets = defaultSets() // WithFileSets replaces whatever the earlier options entered
+				custom = nil
+				apply(es)
+				tok += "+P" + show(es)
+				count("opt:P")
+			case 2:
+				var es []lentry
+				for n := rng.Intn(3); n > 0; n-- {
+					es = append(es, entry(false))
+				}
+				sets = [256]*ftInfo{}
+				custom = nil
+				apply(es)
+				tok += "+W" + show(es)
+				count("opt:W")
+			default:
+				e := entry(true)
+				apply([]lentry{e})
+				tok += "+F" + show([]lentry{e})
+				count("opt:F")
+			}
+		}
+		return tok, sets, custom
+	}
 	for i := 0; i < nOps; i++ {
 		n := pickBuf()
 		through0 := rng.Intn(8) == 0 // a Reset chain that passes through size 0: n → 0 → k → 0 …
 		bufNow := n                  // buffer size in effect (for the distribution counters)
 		zeroSeq, backFromZero := false, false
-		toks := []string{"listener", fmt.Sprintf("g%d", []int{1, 2, 16}[rng.Intn(3)]), fmt.Sprintf("s%d", rng.Intn(1<<30)), bufTok(n, "n")}
+		useOpts := rng.Intn(4) == 0 // listeners configured with WithFileSets / WithFileFunc
+		conf, sets, custom := genConf(n, useOpts && rng.Intn(3) != 0)
+		toks := []string{"listener", fmt.Sprintf("g%d", []int{1, 2, 16}[rng.Intn(3)]), fmt.Sprintf("s%d", rng.Intn(1<<30)), "n" + conf}
 		count("buf:" + bufTok(n, ""))
 		nseq := 1 + rng.Intn(4)
 		if through0 {
@@ -278,6 +473,15 @@ func genListener(emit func(string), tier string, rng *Rng) {
 		active := true
 		for q := 0; q < nseq; q++ {
 			in := &infos[rng.Intn(len(infos))]
+			fileIdKey := -1 // the `type` the file_id messages of this sequence carry (-1: the type of `in`)
+			if len(custom) > 0 && rng.Intn(3) != 0 {
+				e := custom[rng.Intn(len(custom))] // a sequence for a customised key
+				fileIdKey = e.k
+				if sets[e.k] != nil {
+					in = sets[e.k]
+				}
+				count("custom-key-sequence")
+			}
 			var k int
 			switch x := rng.Intn(10); {
 			case x < 3:
@@ -301,13 +505,11 @@ func genListener(emit func(string), tier string, rng *Rng) {
 					active = true
 				}
 				if d.num == int(mesgnum.FileId) {
-					ft := fileTypeByByte(d.ft)
-					if ft != nil {
-						for x := range infos {
-							if infos[x].ft.b == ft.b {
-								cur = &infos[x]
-							}
-						}
+					if fileIdKey >= 0 && d.ft == int(in.ft.b) {
+						d.ft = fileIdKey
+					}
+					if d.ft >= 0 && d.ft < 256 && sets[d.ft] != nil { // no constructor for the type: the message is skipped
+						cur = sets[d.ft]
 					}
 				}
 				if cur != nil {
@@ -365,7 +567,9 @@ func genListener(emit func(string), tier string, rng *Rng) {
 					bufNow = b
 				}
 				count("reset:" + bufTok(b, ""))
-				toks = append(toks, bufTok(b, "R"))
+				var rconf string
+				rconf, sets, custom = genConf(b, useOpts && rng.Intn(2) == 0) // Reset returns to the default options, then applies its own
+				toks = append(toks, "R"+rconf)
 				cur = nil
 				active = true
 			default: // no call between the sequences: the next file_id simply starts a new file
